@@ -77,7 +77,27 @@ class StmtMixin:
                         st = res[0][0]
                     self.cur_line = line
         try:
-            return m(s, st)
+            res = m(s, st)
+            if self.c is not None and getattr(self.c, "after", None) and not self.spec_mode:
+                src = " ".join(ast.unparse(s).split())
+                for key, ghosts in self.c.after.items():
+                    if src.startswith(key):
+                        out = []
+                        for st2, flow, val in res:
+                            if flow == Flow.NORMAL:
+                                line = self.cur_line
+                                for body in ghosts:
+                                    for g in body:
+                                        for n in ast.walk(g):
+                                            n.lineno = line
+                                    r2 = self.exec_block(body, st2)
+                                    if len(r2) != 1 or r2[0][1] != Flow.NORMAL:
+                                        raise Unsupported("ghost code must be straight-line (use if-expressions)")
+                                    st2 = r2[0][0]
+                                self.cur_line = line
+                            out.append((st2, flow, val))
+                        res = out
+            return res
         except TypeMismatch as e:
             # a value of the wrong type reaches this statement: only acceptable on an infeasible path
             self.oblige(st, smt.FALSE, f"type@L{self.cur_line}", "safety", text=f"path is infeasible ({e})")
